@@ -72,6 +72,21 @@ type siteSpec struct {
 }
 
 var sites = []siteSpec{
+	// C02: the cone of Outcome / Reports / the orderings (kind "pkgcalls": no call into time, runtime, os, …)
+	{"pkg/v3/plugin/ocr3.go", "getRandomKeySource"},
+	{"pkg/v3/random/src.go", "GetRandomKeySource"},
+	{"pkg/v3/random/src.go", "NewKeyedCryptoRandSource"},
+	{"pkg/v3/random/src.go", "keyedCryptoRandSource.Int63"},
+	{"pkg/v3/random/shuffler.go", "ShuffleString"},
+	{"pkg/v3/plugin/coordinated_block_proposals.go", "coordinatedBlockProposals.add"},
+	{"pkg/v3/plugin/performable.go", "newPerformables"},
+	{"pkg/v3/plugin/coordinated_block_proposals.go", "newCoordinatedBlockProposals"},
+	{"pkg/v3/observation.go", "DecodeAutomationObservation"},
+	{"pkg/v3/observation.go", "validateAutomationObservation"},
+	{"pkg/v3/observation.go", "validateCheckResult"},
+	{"pkg/v3/outcome.go", "DecodeAutomationOutcome"},
+	{"pkg/v3/outcome.go", "validateAutomationOutcome"},
+	{"pkg/v3/outcome.go", "AutomationOutcome.Encode"},
 	{"pkg/v3/plugin/ocr3.go", "ocr3Plugin.Outcome"},
 	{"pkg/v3/plugin/ocr3.go", "ocr3Plugin.Observation"},
 	{"pkg/v3/plugin/ocr3.go", "ocr3Plugin.ObservationQuorum"},
@@ -1121,7 +1136,118 @@ type siteFacts struct {
 	Conds   []string `json:"conds"`
 	Calls   []string `json:"calls"`
 	Assigns []string `json:"assigns"`
-	Found   bool     `json:"found"`
+	// PkgCalls: every call into an imported package made by the function or, transitively, by the functions it calls
+	// by name (same package, or a package of this repository) or on its own receiver; one entry "<import path>.Name"
+	// per callee, sorted. The angle brackets make `<time>.` match the package time and nothing else.
+	PkgCalls []string `json:"pkgcalls"`
+	Found    bool     `json:"found"`
+}
+
+const modulePath = "github.com/smartcontractkit/chainlink-automation/"
+
+type pkgFunc struct {
+	decl    *ast.FuncDecl
+	imports map[string]string // local name -> import path, of the file the function is in
+}
+
+var pkgFuncCache = map[string]map[string]*pkgFunc{}
+
+// pkgFuncs parses the non-test files of a directory of the repository: "Name" / "Recv.Name" -> declaration
+func pkgFuncs(repo, dir string) map[string]*pkgFunc {
+	if m, ok := pkgFuncCache[dir]; ok {
+		return m
+	}
+	m := map[string]*pkgFunc{}
+	pkgFuncCache[dir] = m
+	ents, _ := os.ReadDir(filepath.Join(repo, dir))
+	for _, e := range ents {
+		n := e.Name()
+		if !strings.HasSuffix(n, ".go") || strings.HasSuffix(n, "_test.go") {
+			continue
+		}
+		f, err := parser.ParseFile(token.NewFileSet(), filepath.Join(repo, dir, n), nil, parser.SkipObjectResolution)
+		if err != nil {
+			continue
+		}
+		imps := map[string]string{}
+		for _, im := range f.Imports {
+			path := strings.Trim(im.Path.Value, "\"")
+			name := strings.TrimPrefix(path[strings.LastIndex(path, "/")+1:], "go-") // github.com/goccy/go-json is package json
+			if im.Name != nil {
+				name = im.Name.Name
+			}
+			imps[name] = path
+		}
+		for _, d := range f.Decls {
+			fd, ok := d.(*ast.FuncDecl)
+			if !ok || fd.Body == nil {
+				continue
+			}
+			name := fd.Name.Name
+			if r := recvName(fd); r != "" {
+				name = r + "." + name
+			}
+			m[name] = &pkgFunc{decl: fd, imports: imps}
+		}
+	}
+	return m
+}
+
+// pkgCallsOf collects the calls into imported packages in the cone of dir:name (see siteFacts.PkgCalls)
+func pkgCallsOf(repo, dir, name string, seen map[string]bool, out map[string]bool) {
+	key := dir + ":" + name
+	if seen[key] {
+		return
+	}
+	seen[key] = true
+	funcs := pkgFuncs(repo, dir)
+	pf, ok := funcs[name]
+	if !ok {
+		return
+	}
+	recvVar, recvType := "", recvName(pf.decl)
+	if pf.decl.Recv != nil && len(pf.decl.Recv.List) > 0 && len(pf.decl.Recv.List[0].Names) > 0 {
+		recvVar = pf.decl.Recv.List[0].Names[0].Name
+	}
+	ast.Inspect(pf.decl.Body, func(n ast.Node) bool {
+		call, ok := n.(*ast.CallExpr)
+		if !ok {
+			return true
+		}
+		fun := call.Fun
+		for {
+			switch x := fun.(type) {
+			case *ast.IndexExpr: // generic instantiation
+				fun = x.X
+				continue
+			case *ast.IndexListExpr:
+				fun = x.X
+				continue
+			case *ast.ParenExpr:
+				fun = x.X
+				continue
+			}
+			break
+		}
+		switch x := fun.(type) {
+		case *ast.Ident:
+			pkgCallsOf(repo, dir, x.Name, seen, out)
+		case *ast.SelectorExpr:
+			id, ok := x.X.(*ast.Ident)
+			if !ok {
+				return true
+			}
+			if path, ok := pf.imports[id.Name]; ok && id.Name != recvVar {
+				out["<"+path+">."+x.Sel.Name] = true
+				if strings.HasPrefix(path, modulePath) {
+					pkgCallsOf(repo, strings.TrimPrefix(path, modulePath), x.Sel.Name, seen, out)
+				}
+			} else if id.Name == recvVar && recvType != "" {
+				pkgCallsOf(repo, dir, recvType+"."+x.Sel.Name, seen, out)
+			}
+		}
+		return true
+	})
 }
 
 func main() {
@@ -1190,6 +1316,12 @@ func main() {
 				continue
 			}
 			out.Found = true
+			pc := map[string]bool{}
+			pkgCallsOf(repo, filepath.Dir(s.File), s.Func, map[string]bool{}, pc)
+			for k := range pc {
+				out.PkgCalls = append(out.PkgCalls, k)
+			}
+			sort.Strings(out.PkgCalls)
 			ast.Inspect(fd.Body, func(n ast.Node) bool {
 				switch x := n.(type) {
 				case *ast.IfStmt:
